@@ -78,17 +78,20 @@ type Options struct {
 	Shard     int
 	NShards   int
 	StopFirst bool // stop at the first violation
+	// Classify maps a violation text to its class (default: the text with every digit run replaced)
+	Classify func(what string) string
 }
 
 type explorer struct {
-	sc      *Scenario
-	opt     Options
-	res     *Result
-	visited map[uint64]struct{}
-	stop    bool
-	topIdx  int
-	shared  map[uint64]bool
-	access  map[uint64]uint32
+	perClass map[string]int
+	sc       *Scenario
+	opt      Options
+	res      *Result
+	visited  map[uint64]struct{}
+	stop     bool
+	topIdx   int
+	shared   map[uint64]bool
+	access   map[uint64]uint32
 }
 
 func init() {
@@ -191,6 +194,13 @@ func (e *explorer) judge(x *vsched.Exec) {
 		e.res.MaxPreempt = p
 	}
 	if viol != "" {
+		// at most 3 violations are recorded per class, and a frequent class (for instance one that is a
+		// listed known finding) never ends the exploration: a different violation further on must still be found
+		cls := e.classOf(viol)
+		e.perClass[cls]++
+		if e.perClass[cls] > 3 {
+			return
+		}
 		v := &Violation{Scenario: e.sc.Name, Choices: append([]int(nil), x.Choices...), What: viol, Outcome: outcome}
 		for id := range e.shared {
 			v.Shared = append(v.Shared, id)
@@ -209,7 +219,7 @@ func (e *explorer) judge(x *vsched.Exec) {
 		}
 		if ok {
 			e.res.Violations = append(e.res.Violations, v)
-			if e.opt.StopFirst || len(e.res.Violations) >= 20 {
+			if e.opt.StopFirst || len(e.res.Violations) >= 60 {
 				e.stop = true
 			}
 		} else {
@@ -364,4 +374,28 @@ func Replay(sc *Scenario, choices []int, shared []uint64) (string, string) {
 		return "DIVERGED", ""
 	}
 	return e.checkExec(x)
+}
+
+func (e *explorer) classOf(what string) string {
+	if e.perClass == nil {
+		e.perClass = map[string]int{}
+	}
+	if e.opt.Classify != nil {
+		return e.opt.Classify(what)
+	}
+	b := make([]byte, 0, len(what))
+	prevDigit := false
+	for i := 0; i < len(what); i++ {
+		c := what[i]
+		if c >= '0' && c <= '9' {
+			if !prevDigit {
+				b = append(b, '#')
+			}
+			prevDigit = true
+			continue
+		}
+		prevDigit = false
+		b = append(b, c)
+	}
+	return string(b)
 }
